@@ -1,7 +1,7 @@
 SPECIFICATION GSpec
 CONSTANTS FMods = {"absent", "", "public", "static", "private", "protected"}
   IMods = {"", "private", "static"}
-  Calls = {"co_f", "drv_f", "efun_f", "co_g", "drv_g", "cout_f"}
+  Calls = {"co_f", "drv_f", "efun_f", "co_g", "drv_g", "cout_f", "coa_f", "coa_g"}
   HistLen = 5
   Sim = TRUE
 INVARIANT Emit
